@@ -11,7 +11,7 @@ from hypothesis import strategies as st
 from PIL import Image
 
 from vlib import treg
-from vlib.core import Case, Facet, Refused, Violation
+from vlib.core import Case, Facet, Refused, Violation, guarded
 
 # thorough-tier budgets of every facet are multiplied by this factor (sized for ~5-8 min on 16 cores)
 THOROUGH_SCALE = 4
@@ -348,30 +348,41 @@ def check_scheduled_sim(spec):
     PT = _probe_class()
     W, B, T = spec["W"], spec["B"], spec["T"]
     kw = _budget_kwargs(spec)
-    template = KDScheduledTransform(PT(), schedule=_schedule(spec["schedule"]))
+    probe = PT()
+    template = KDScheduledTransform(probe, schedule=_schedule(spec["schedule"]))
     prefix = template.ctx_key
-    if spec["nest"]:
+    # 'shared': a second scheduled wrapper with another schedule holds the very same transform object and is called in
+    # alternation - what a wrapper applies to a sample is its own schedule's value, whatever the object was scaled to in between
+    other_name = {"linear": "lindec", "cosine": "lindec", "lindec": "cosine"}[spec["schedule"]]
+    other = KDScheduledTransform(probe, schedule=_schedule(other_name)) if spec.get("shared") else None
+    if spec["nest"] and other is None:
         template = KDComposeTransform([template])
     workers = []
     for r in range(W):
-        w = copy.deepcopy(template)
+        w, o = copy.deepcopy((template, other))
         with patch(target="kappadata.transforms.base.kd_transform.get_worker_info", new=lambda: _Info(W)):
             w.worker_init_fn(rank=r, **kw)
-        workers.append(w)
-    ref = _schedule(spec["schedule"])
+            if o is not None:
+                o.worker_init_fn(rank=r, **kw)
+        workers.append((w, o))
+    ref, ref_other = _schedule(spec["schedule"]), _schedule(other_name)
     for b in range(T):
-        w = workers[b % W]
-        exp = ref.get_value(b, T)
+        w, o = workers[b % W]
         for s in range(B):
-            ctx = {}
-            w(None, ctx)
-            got = ctx.get(prefix)
-            if got is None or not _close(float(got), float(exp), 1e-9):
-                raise Violation(f"scheduled-strength-differs:{spec['budget']}", f"W={W} B={B} T={T} batch {b} sample {s}: reported {got}, "
-                                                                                f"schedule says {exp}")
-            if not _close(float(ctx["probe"]), float(exp), 1e-9):
-                raise Violation("scheduled-strength-not-applied", f"batch {b}: transform scaled with {ctx['probe']}, schedule says {exp}")
-    return Case(W >= 2, ["W=%d" % W, spec["budget"], spec["schedule"]], T * B)
+            for tr, rf, tag in ((w, ref, ""), (o, ref_other, ":shared-object")):
+                if tr is None:
+                    continue
+                exp = rf.get_value(b, T)
+                ctx = {}
+                tr(None, ctx)
+                got = ctx.get(prefix)
+                if got is None or not _close(float(got), float(exp), 1e-9):
+                    raise Violation(f"scheduled-strength-differs:{spec['budget']}{tag}", f"W={W} B={B} T={T} batch {b} sample {s}: reported {got}, "
+                                                                                          f"schedule says {exp}")
+                if not _close(float(ctx["probe"]), float(exp), 1e-9):
+                    raise Violation(f"scheduled-strength-not-applied{tag}", f"batch {b} sample {s}: transform scaled with {ctx['probe']}, "
+                                                                            f"schedule says {exp}")
+    return Case(W >= 2, ["W=%d" % W, spec["budget"], spec["schedule"]] + (["shared-object"] if other is not None else []), T * B)
 
 
 class _ZeroRoot:
@@ -471,7 +482,8 @@ def _leaf_facet(name):
 SCHED = st.fixed_dictionaries({"W": st.integers(1, 4), "B": st.integers(1, 5), "T": st.integers(1, 24),
                                "budget": st.sampled_from(["updates", "samples", "epochs"]), "epochs": st.integers(1, 4),
                                "world": st.integers(1, 3), "drop_last": st.booleans(), "extra": st.integers(0, 9),
-                               "schedule": st.sampled_from(["linear", "cosine", "lindec"]), "nest": st.booleans()})
+                               "schedule": st.sampled_from(["linear", "cosine", "lindec"]), "nest": st.booleans(),
+                               "shared": st.booleans()})
 
 FACETS = [_leaf_facet(n) for n in SCALABLE] + [
     Facet("compositions", check, strategy=lambda tier: _wrap(scal_tspec(2)),
@@ -480,7 +492,7 @@ FACETS = [_leaf_facet(n) for n in SCALABLE] + [
     Facet("pil-compositions", check, strategy=lambda tier: _wrap(pil_composition()).map(lambda s: dict(s, fam="pipeline")),
           budget={"quick": 200, "thorough": 2500}, shards={"quick": 4, "thorough": 8},
           min_nontrivial={"quick": 50, "thorough": 500}, case_timeout=300),
-    Facet("scheduled-simulated-workers", check_scheduled_sim, strategy=lambda tier: SCHED,
+    Facet("scheduled-simulated-workers", guarded("scheduled", check_scheduled_sim), strategy=lambda tier: SCHED,
           budget={"quick": 600, "thorough": 8000}, shards={"quick": 2, "thorough": 6}, min_nontrivial={"quick": 150, "thorough": 1500}),
     Facet("scheduled-real-loader", check_scheduled_real,
           strategy=lambda tier: st.fixed_dictionaries({"W": st.integers(1, 3), "B": st.integers(1, 4), "T": st.integers(1, 10),
